@@ -41,7 +41,8 @@ def run_case(case):
     pr = PROGS[pi]
     rnd = random.Random(seed)
     P, Q = placement
-    s = KERN[cfg['kernel']]
+    ksc = 0.125 if cfg['kernel'] in ('log1pw', 'wsin') else 1.0      # s(ksc * w): the kernel's disc of analyticity has radius 8 (log1p) / 25 (w/sin w), wider than any default path
+    s = (lambda w, k_=KERN[cfg['kernel']]: k_(w * ksc)) if ksc != 1.0 else KERN[cfg['kernel']]
     g = exprs.make_fun(pr['prog'], 1.0, P)                 # g(P) = jet[0] exactly
     gP = exprs.jet_floats(pr['jet'])[0]
     has_q = 'Q' in r['layout']
@@ -120,7 +121,7 @@ def run_case(case):
         if a.size == len(sing):
             offs.append((a - np.array(sing)).tolist())
     return dict(alts=alts, val=val.tolist(), est=est.tolist(), want=[complex(w) for w in want], kinds=kinds,
-                offs=[[complex(o) for o in row] for row in (offs[:6] + offs[-2:])], left_domain=bool(left[0]) or (cfg['path'] == 'spiral' and max([float(np.max(np.abs(r_))) for r_ in offs] + [0.0]) >= dict(sinc=1e300, expm1w=1e300, log1pw=1.0, wsin=3.0)[cfg['kernel']]), regular_exact=[complex(t) for t in np.atleast_1d(first[0])])
+                offs=[[complex(o) for o in row] for row in (offs[:6] + offs[-2:])], left_domain=bool(left[0]) or (cfg['path'] == 'spiral' and max([float(np.max(np.abs(r_))) for r_ in offs] + [0.0]) >= dict(sinc=1e300, expm1w=1e300, log1pw=1.0 / 0.125, wsin=3.0 / 0.125)[cfg['kernel']]), regular_exact=[complex(t) for t in np.atleast_1d(first[0])])
 
 
 def run_poly(case):
